@@ -155,6 +155,25 @@ fn dispatch(cmd: &str, a: &[&str]) -> Result<Vec<String>, String> {
                 Err(e) => Err(e)
             }
         }
+        "multipart_roundtrip" => {
+            // boundary, mode (roundtrip|no-open|no-close), nparts, then name value body per part (single header each)
+            use crate::body::multipart_form_data::{FormMultipartData, Part};
+            let boundary = ustr(a[0]); let mode = ustr(a[1]); let n: usize = a[2].parse().unwrap();
+            let mut parts = vec![];
+            for i in 0..n { parts.push(Part { headers: vec![Header { name: ustr(a[3 + 3 * i]), value: ustr(a[4 + 3 * i]) }], body: unhex(a[5 + 3 * i]) }); }
+            let mut data = FormMultipartData::generate(parts, &boundary)?;
+            if mode == "no-open" { data = data[boundary.len() + 2..].to_vec(); }
+            if mode == "no-close" { let l = data.len() - boundary.len(); data.truncate(l); }
+            let parsed = FormMultipartData::parse(&data, boundary.clone())?;
+            let mut out = vec![];
+            for p in parsed {
+                let h = p.headers.get(0);
+                out.push(hex(h.map(|x| x.name.clone()).unwrap_or("<none>".to_string()).as_bytes()));
+                out.push(hex(h.map(|x| x.value.clone()).unwrap_or("<none>".to_string()).as_bytes()));
+                out.push(hex(&p.body));
+            }
+            Ok(out)
+        }
         "process_seq" => {
             // size, then request bytes...: every request is handled by Server::process on this same thread, in order
             let size: i64 = a[0].parse().unwrap();
